@@ -16,7 +16,7 @@ TYPE_OF = {"V1SC": "SD1", "V2SC": "SD2", "V2HC": "SDHC"}
 def cap_checks(tie, rng, thorough):
     """CSD decoding on assorted registers: model vs implementation vs specification"""
     regs = []
-    for _ in range(3000 if thorough else 400):
+    for _ in range(20000 if thorough else 400):
         regs.append(bytes(rng.below(256) for _ in range(16)).hex())
     for c in (0, 1, 4095, 2048, 1000):
         for m in range(8):
